@@ -303,10 +303,11 @@ def crash_variants(r, base, length, stride=1, probe=False, old_parts=None):
         out.append(c)
     return out
 
-def add_probe(c):
-    """C09 probe: after everything, crash, then a fully funded cooperative set (twice if the first hits a zero MPP remainder)."""
+def add_probe(c, crash=True):
+    """C09 probe: after everything, crash (or not: a failed write must not wedge the RUNNING plugin either), then a fully funded
+    cooperative set (twice if the first hits a zero MPP remainder)."""
     c = dict(c)
-    tail = [{"e": "finale", "old_parts": "fail"}, {"e": "crash"}, {"e": "tick", "ms": 1000}, dict(c["_probe"], probe=True),
+    tail = [{"e": "finale", "old_parts": "fail"}] + ([{"e": "crash"}] if crash else []) + [{"e": "tick", "ms": 1000}, dict(c["_probe"], probe=True),
             {"e": "finale", "mode": "coop", "old_parts": "fail"}, {"e": "probe_retry"}, {"e": "finale", "mode": "coop", "old_parts": "fail"}]
     if "after_crash" in c: c["after_crash"] = c["after_crash"] + tail
     c["suffix"] = (c.get("suffix") or []) + tail
